@@ -10,10 +10,11 @@ ToSet(s) == {s[i] : i \in 1..Len(s)}
 TreesC == TreesJ
 
 SubsC == {"s1", "s2"}
+LisC == {"r1", "r2", "p1"}
 NoSubs == {}
 
 StateRec == [t |-> t, blk |-> blk, sta |-> sta, best |-> best, mem |-> mem, pc |-> pc, ret |-> ret,
-             led |-> led, dur |-> dur, durbest |-> dur.best, subs |-> subs, notif |-> notif,
+             led |-> led, dur |-> dur, durbest |-> dur.best, subs |-> subs, notif |-> notif, lis |-> lis,
              minreorg |-> IF pc.k = "idle" THEN MinReorg ELSE 0]
 
 EmitEdge == PrintT("EDGE " \o ToJson([from |-> StateRec, act |-> act', to |-> StateRec']))
